@@ -209,9 +209,14 @@ def gen_case(seed, i, tier="quick"):
     if stratum == "scale":
         cell["depth"] = rng.choice((1, 5, 20, 50))
         cell["loop"] = rng.choice((1, 1, 30, 300))
+        if shape in ("self", "mutual2", "mutual3", "closure", "arrow", "method", "ctor") and cell["site"] in ("top", "function") and rng.random() < 0.4:
+            # script-to-script calls do not nest host frames: a deep but bounded recursion fits a large limit
+            cell["depth"] = rng.choice((300, 1500))
+            cell["loop"] = 1
+            case["deep"] = True
         if cell["try"] == "outer_try_loop":
             cell["try"] = "outer_try"
-        case["M"] = 1024 * 1024
+        case["M"] = 50 * 1024 * 1024 if case.get("deep") else 1024 * 1024
     else:
         hi = 2_000_000 if tier == "quick" else 20_000_000
         case["M"] = loguniform(rng, 2000, hi)
@@ -322,6 +327,8 @@ def features(case, res=None):
         f.append("probe:" + cell["probe"])
     if case.get("T_work"):
         f.append("fault:deadline")
+    if case.get("deep"):
+        f.append("deep")
     if cell["stratum"] == "A":
         f.append("M:large" if case["M"] >= 100_000 else "M:small")
     return sorted(f)
